@@ -394,9 +394,16 @@ theorem benignS_fresh (s : St) : BenignS s s.fresh.2 := by
     · omega
     · exact ha
 
+theorem same_bumpLocal (s : St) (w : Option Nat) : Same s (bumpLocal s w) := by
+  unfold bumpLocal
+  split
+  · split <;> first | exact ⟨rfl, rfl, rfl, rfl, rfl, rfl⟩ | exact Same.refl s
+  · exact Same.refl s
+
 theorem same_observe (s : St) (w : Option Nat) : Same s (observe s w).2 := by
   unfold observe
   dsimp only
+  refine Same.trans ?_ (same_bumpLocal _ w)
   split
   · split <;> first | exact ⟨rfl, rfl, rfl, rfl, rfl, rfl⟩ | exact Same.refl s
   · exact Same.refl s
